@@ -116,6 +116,13 @@ class Isotension(Isobaric[MoveType, CriteriaType], Generic[MoveType, CriteriaTyp
         Parameters
         ----------
         stress : Stress
-            The external stress tensor in eV/Å^3.
+            The external stress tensor in eV/Å^3, as a (3, 3) array or in Voigt order
+            (xx, yy, zz, yz, xz, xy) with shape (6,), the form `atoms.get_stress()` returns.
         """
+        stress = np.asarray(stress, dtype=float)
+
+        if stress.shape == (6,):
+            xx, yy, zz, yz, xz, xy = stress
+            stress = np.array([[xx, xy, xz], [xy, yy, yz], [xz, yz, zz]])
+
         self.context.external_stress = stress
